@@ -703,6 +703,10 @@ func (db *RockDB) SetRange(ts int64, rawKey []byte, offset int, value []byte) (i
 	if realV == nil && !keyInfo.Expired {
 		db.IncrTableKeyCount(keyInfo.Table, 1, db.wb)
 	}
+	if keyInfo.Expired {
+		// the old value is dead, start from empty
+		realV = nil
+	}
 	extra := offset + len(value) - len(realV)
 	if extra > 0 {
 		realV = append(realV, make([]byte, extra)...)
@@ -779,11 +783,15 @@ func (db *RockDB) Append(ts int64, rawKey []byte, value []byte) (int64, error) {
 	if err != nil {
 		return 0, err
 	}
+	if keyInfo.Expired {
+		// the old value is dead, start from empty.
+		// (expired rewrites the old key, which should not change the table counter)
+		realV = nil
+	} else if realV == nil {
+		db.IncrTableKeyCount(keyInfo.Table, 1, db.wb)
+	}
 	if len(realV)+len(value) > MaxValueSize {
 		return 0, errValueSize
-	}
-	if realV == nil && !keyInfo.Expired {
-		db.IncrTableKeyCount(keyInfo.Table, 1, db.wb)
 	}
 
 	newLen := len(realV) + len(value)
